@@ -149,26 +149,52 @@ func runQuery(sh *shard, q *sQuery) (rows []sChunkRow, err error) {
 	var outType hybridqp.RowDataType
 	var readerOps, aggOps []hybridqp.ExprOptions
 	var seriesPlan hybridqp.QueryNode
+	var topAgg hybridqp.QueryNode
 	if q.Call != "" {
-		ft := sFieldTypes[q.CallField]
-		ot := ft
-		if q.Call == "count" {
-			ot = influxql.Integer
+		// the plan the query layer would ship: built by the real plan builder and
+		// optimised by the real heuristic planner (aggregate push-down to the reader
+		// for the pre-aggregation shortcut, to the series level otherwise)
+		builder := executor.NewLogicalPlanBuilderImpl(querySchema)
+		sp, perr := builder.CreateSeriesPlan()
+		if perr != nil {
+			return nil, fmt.Errorf("series plan %q: %w", stmtText, perr)
 		}
-		ref := influxql.VarRef{Val: "val0", Type: ot}
-		outType = hybridqp.NewRowDataTypeImpl(ref)
-		readerOps = []hybridqp.ExprOptions{{
-			Expr: &influxql.Call{Name: q.Call, Args: []influxql.Expr{&influxql.VarRef{Val: q.CallField, Type: ft}}},
-			Ref:  ref,
-		}}
-		mergeCall := q.Call
-		if q.Call == "count" {
-			mergeCall = "sum"
+		mp, perr := builder.CreateMeasurementPlan(sp)
+		if perr != nil {
+			return nil, fmt.Errorf("measurement plan %q: %w", stmtText, perr)
 		}
-		aggOps = []hybridqp.ExprOptions{{
-			Expr: &influxql.Call{Name: mergeCall, Args: []influxql.Expr{&influxql.VarRef{Val: "val0", Type: ot}}},
-			Ref:  ref,
-		}}
+		builder.Push(mp)
+		builder.Aggregate()
+		plan, perr := builder.Build()
+		if perr != nil {
+			return nil, fmt.Errorf("plan %q: %w", stmtText, perr)
+		}
+		planner := executor.BuildHeuristicPlanner()
+		planner.SetRoot(plan)
+		best := planner.FindBestExp()
+		var reader *executor.LogicalReader
+		for n := best; n != nil; {
+			if lr, ok := n.(*executor.LogicalReader); ok {
+				reader = lr
+				break
+			}
+			if _, ok := n.(*executor.LogicalAggregate); ok && topAgg == nil {
+				topAgg = n
+			}
+			if len(n.Children()) == 0 {
+				break
+			}
+			n = n.Children()[0]
+		}
+		if reader == nil || topAgg == nil {
+			panic(core.InfraPanic("unexpected plan shape for " + stmtText))
+		}
+		outType = reader.RowDataType()
+		readerOps = reader.RowExprOptions()
+		if len(reader.Children()) > 0 {
+			seriesPlan = reader.Children()[0]
+		}
+		aggOps = topAgg.RowExprOptions()
 	} else {
 		// the store-side plan of a plain selection, built by the real plan builder:
 		// Exchange(Reader(Exchange(Series)))
@@ -240,11 +266,15 @@ func runQuery(sh *shard, q *sQuery) (rows []sChunkRow, err error) {
 
 	chunkReader := NewChunkReader(outType, readerOps, seriesPlan, querySchema, keyCursors, false)
 	defer chunkReader.Release()
-	outPort := executor.NewChunkPort(outType)
+	outPortType := outType
+	if topAgg != nil {
+		outPortType = topAgg.RowDataType()
+	}
+	outPort := executor.NewChunkPort(outPortType)
 	errc := make(chan error, 2)
 	if q.Call != "" {
 		agg, aerr := executor.NewStreamAggregateTransform(
-			[]hybridqp.RowDataType{outType}, []hybridqp.RowDataType{outType}, aggOps, &opt, querySchema, false)
+			[]hybridqp.RowDataType{outType}, []hybridqp.RowDataType{topAgg.RowDataType()}, aggOps, &opt, querySchema, false)
 		if aerr != nil {
 			return nil, fmt.Errorf("aggregate transform %q: %w", stmtText, aerr)
 		}
@@ -271,7 +301,21 @@ loop:
 			if !ok {
 				break loop
 			}
-			rows = append(rows, chunkRows(ck, dims)...)
+			cr := chunkRows(ck, dims)
+			if os.Getenv("VERIF_DEBUG") != "" {
+				for _, r := range cr {
+					fmt.Printf("DEBUG row %q: group=%s t=%d vals=", stmtText, r.Group, (r.Time-sBaseTime)/sStep)
+					for _, v := range r.Vals {
+						if v == nil {
+							fmt.Print(" nil")
+						} else {
+							fmt.Print(" ", *v)
+						}
+					}
+					fmt.Println()
+				}
+			}
+			rows = append(rows, cr...)
 		case <-timeout:
 			return nil, fmt.Errorf("query %q did not finish within 60s", stmtText)
 		}
